@@ -38,6 +38,7 @@ CLAIMED = {
           "(C03_twos_complement); division - rust_decimal's div_impl transcribed at integer level and compared mantissa-and-scale on every run - "
           "returns the exact quotient when it says so and otherwise a value within half a unit in its last place (C03_division_exact_when_reported, "
           "C03_division_correctly_rounded: loop invariant q*D + r = A*10^k, half-even rounding on every exit, unscale removes only factors of ten); "
+          "the order of decimals is a total preorder and min / max return an argument that no argument undercuts / exceeds (C03_order_is_total_preorder, C03_min_max); "
           "decimal exactness of + - * % in C09. " + TIE + "Oracle: an independent denotation with exact rationals, every operator x "
           "every pair of a 46-value pool.", "Coq kernel; Value.v transcribes operator.rs/function.rs handlers; rust_decimal modelled (contract).",
           "Coq case-analysis proofs over the handler model + oracle-checked differential correspondence", "6/C03"),
